@@ -192,7 +192,7 @@ func (d *driver) ops(w *world.World, depth int, path []string) []engine.Op {
 			return "ok"
 		})
 	}
-	for _, cls := range []string{"supply", "supply+1", "supply-1", "supply+mint6s", "supply+mint6s-1", "huge"} {
+	for _, cls := range []string{"supply", "supply+1", "supply-1", "supply+mint6s", "supply+mint6s-1", "huge", "zero"} {
 		cls := cls
 		add("max("+cls+")", func(p []string, res *engine.Result) string {
 			ctx := w.Ctx()
@@ -207,6 +207,8 @@ func (d *driver) ops(w *world.World, depth int, path []string) []engine.Op {
 				v = supply.SubRaw(1)
 			case "huge":
 				v = huge
+			case "zero":
+				v = sdkmath.ZeroInt()
 			default:
 				pr := w.App.CoinomicsKeeper.GetParams(ctx)
 				bonded := w.App.StakingKeeper.TotalBondedTokens(ctx)
